@@ -34,6 +34,18 @@ def cases(ctx):
     for i in range(250 * K):
         X = gen.random_nfa(rng, 5, eps=rng.choice(['_', 'ε', 'e']))
         yield {'kind': 'nfa', 'X': X}
+    # automata whose states carry the set / pair names of the constructions, re-read with the matching state pattern as the notebook
+    # checkers do (parse_dfa(text, state_regex=state_set_regex()) etc.)
+    for i in range(90 * K):
+        sr = ['set', 'product', 'word_or_set'][i % 3]
+        pool = {'set': ['{}', '{q0}', '{q0,q1}', '{q1,q2}', '{q0,q1,q2}'], 'product': ['(p0,q0)', '(p0,q1)', '(p1,q0)', '(p1,q1)', '(p2,q0)'],
+                'word_or_set': ['q0', '{q1,q2}', '{q3}', 'q4', '{}']}[sr]
+        if i % 2:
+            X = gen.random_dfa(rng, 5, names=lambda j: pool[j])
+            yield {'kind': 'dfa', 'X': X, 'sr': sr}
+        else:
+            X = gen.random_nfa(rng, 5, eps=rng.choice(['_', 'ε']), names=lambda j: pool[j])
+            yield {'kind': 'nfa', 'X': X, 'sr': sr}
     for i in range(200 * K):
         X = gen.random_pda(rng, markers=True)
         e0 = X['eps']
@@ -90,7 +102,7 @@ def lean_requests(c):
         c['_text'] = text
         reqs = [{'op': 'print_' + k, KEY[k]: c['X']}]
         if 'ok' in text:
-            reqs.append({'op': 'parse_' + k, 'text': text['ok']})
+            reqs.append({'op': 'parse_' + k, 'text': text['ok'], 'state_regex': c.get('sr', '')})
         return reqs
     if k == 'cfg':
         G = enc.build_cfg(c['X'])
@@ -142,7 +154,12 @@ def judge(ctx, c, answers):
             ctx.violation('printer-raises', {'case': c_min(c), 'impl': text})
             return
         t = text['ok']
-        back = call(PARSE[k], t)
+        if c.get('sr'):
+            from gambatools.automaton_algorithms import state_set_regex, state_product_regex, state_word_or_set_regex
+            rx = {'set': state_set_regex, 'product': state_product_regex, 'word_or_set': state_word_or_set_regex}[c['sr']]()
+            back = call(PARSE[k], t, state_regex=rx)
+        else:
+            back = call(PARSE[k], t)
         bad = False
         if 'ok' not in back:
             ctx.violation('round-trip', {'case': c_min(c), 'text': t, 'problem': 'parse raises %s %s' % (back.get('err'), back.get('msg'))})
@@ -237,7 +254,7 @@ def judge(ctx, c, answers):
 
 
 def c_min(c):
-    return {'kind': c['kind'], 'X': c['X']}
+    return {'kind': c['kind'], 'X': c['X'], 'sr': c['sr']} if c.get('sr') else {'kind': c['kind'], 'X': c['X']}
 
 
 def run(ctx):
